@@ -1,27 +1,33 @@
-"""Per-property configuration of the driver (bin/vcheck)."""
+"""Per-property configuration of the driver (bin/vcheck): one file per property under bin/conf/<ID>.py
+defining CHECK = {...}. Keys:
+
+  pkg            repo-relative package whose test binary hosts the property
+  level          evidence level (exploration | fault_enumeration)
+  rule           how cases are generated and what makes one non-trivial / distinct (goes into evidence)
+  technique, level_text, level_note   MANIFEST fields
+  assumptions    list of strings (evidence)
+  campaigns      list of {test, checks:{quick,thorough}, shards:{quick,thorough}?, timeout:{quick,thorough}? (s),
+                 steps?, shrinktime?, mem_gb?, env?, tiers?, fixed?:bool, death_is_violation?, timeout_is_violation?}
+  race           build with -race
+  rewrites       [{file, pattern, replacement}] build-time source rewrites derived from the current tree
+  extra_builds   [{pkg, out}] additional binaries built into build/<ID>/
+  env            extra environment for every shard
+  parallel       max concurrent shard processes (default: all cores)
+  nontrivial_floor   minimal fraction of non-trivial cases (default 0.01), below => exit 2
+"""
+import glob
+import importlib.util
+import os
 
 CHECKS = {}
+# properties that are deliberately not claimed: id -> reason
 NOT_APPLICABLE = {}
+# /repo commits that add build-tag guarded hooks
 HOOK_COMMITS = []
 
-CHECKS["C17"] = {
-    "pkg": "internal/tools/bitmask",
-    "level": "exploration",
-    "rule": ("rapid state machine over three registers, each holding the connected (run list), long (word array) and "
-             "short (linked words) representation next to a plain set model; operations set/setrun/unset/flip, "
-             "or/and/sub/xor in place and as ...Copy, copy, shrink, inject, extract; bits 0..200 biased to word "
-             "boundaries and to +-2 of existing bits. After every operation every representation is compared with the "
-             "model (IsSet 0..269, OnesCount, Len, IsZero, Next, Equal between registers, Extract's result, run-list "
-             "representation invariant). Non-trivial: history of >=4 operations containing an inject/extract or a "
-             "binary set operation; distinct = distinct operation histories."),
-    "technique": "model-based stateful property testing (rapid state machine) against a plain integer-set model",
-    "level_text": ("generated operation histories over all three representations compared with a set model after every step; "
-                   "finds representation-invariant breakage that only a later operation observes; no absence claim"),
-    "level_note": "trusts the Go map based set model; bits limited to 0..270; aliasing of both operands of an in-place operation is not generated",
-    "assumptions": ["in-place binary operations are never applied with both operands being the same object",
-                    "bits up to 270 only; word-array type has no Extract and is rebuilt from the model after one"],
-    "campaigns": [
-        {"test": "TestVerifC17", "checks": {"quick": 40000, "thorough": 3000000}},
-        {"test": "TestVerifC17Fixed", "fixed": True, "checks": {"quick": 1, "thorough": 1}},
-    ],
-}
+_here = os.path.dirname(os.path.abspath(__file__))
+for _p in sorted(glob.glob(os.path.join(_here, "conf", "C*.py"))):
+    _spec = importlib.util.spec_from_file_location("vconf_" + os.path.basename(_p)[:-3], _p)
+    _m = importlib.util.module_from_spec(_spec)
+    _spec.loader.exec_module(_m)
+    CHECKS[os.path.basename(_p)[:-3]] = _m.CHECK
